@@ -875,7 +875,7 @@ def build_ops():
         O("call", lambda o, a, n, b, m: o(a, **{n: b, m: a}), ("value", "kwname", "any", "kwname"), [],
           kinds=["vec", "shape-call", "shape-seq", "shape-ctx", "shape-ops"]),
         # the same call spelt `obj.__call__(...)`
-        O("call-dunder", lambda o, a, n, b: o.__call__(a, **{n: b}), ("value", "kwname", "any"), [("get", "__call__")],
+        O("call-dunder", lambda o, a, n, b: o.__call__(a, **{n: b}), ("value", "kwname", "any"), [],
           kinds=["vec", "shape-call"]),
         # a method that takes arbitrary keywords, reached through the TYPE (`type(p).update(p, **kw)`): on a proxy that
         # is the made method itself (HANDLE_CALLATTR), not attribute access followed by a call
